@@ -36,4 +36,18 @@ def dict_direction_dropped(trace, violation):
     return c.get("op") == "restart" and c.get("fmt") in ("dict", "json", "yaml") and d == ["/direction: max != min"]
 
 
-TRIGGERS = {"dict_direction_dropped": dict_direction_dropped, "optlang_dblmax": optlang_dblmax, "optlang_exact_clone": optlang_exact_clone}
+def solver_switch_in_context(trace, violation):
+    """The solver interface is switched while a context is open: earlier undo entries still point at the old solver's objects."""
+    depth = {}
+    for o in trace["ops"]:
+        a = o.get("actor", 0)
+        if o["op"] == "enter":
+            depth[a] = depth.get(a, 0) + 1
+        elif o["op"] in ("exit", "exit_exc"):
+            depth[a] = max(0, depth.get(a, 0) - 1)
+        elif o["op"] == "solver" and depth.get(a, 0) > 0:
+            return True
+    return False
+
+
+TRIGGERS = {"solver_switch_in_context": solver_switch_in_context, "dict_direction_dropped": dict_direction_dropped, "optlang_dblmax": optlang_dblmax, "optlang_exact_clone": optlang_exact_clone}
